@@ -41,13 +41,15 @@ Definition relay_get (hs : list N) (l : pool) : list (N * N) :=
 Inductive pev :=
 | PE_send (h : N) (verdict : option N)
 | PE_connect (p : N)                 (* a peer opens the relay protocol: everything not yet announced to it is announced *)
-| PE_get (hs : list N).
+| PE_get (hs : list N)
+| PE_disconnect (p : N).            (* a peer closes the relay protocol (RelayProtocol::disconnected): the pool, and who was told what, stay *)
 
 Definition pstep (limit : nat) (l : pool) (e : pev) : pool * list (N * N) :=
   match e with
   | PE_send h v => (send limit v h l, [])
   | PE_connect p => let '(hs, l') := broadcast p l in (l', map (fun h => (p, h)) hs)
   | PE_get _ => (l, [])
+  | PE_disconnect _ => (l, [])
   end.
 
 (* all announcements (peer, hash) of a history, in order *)
